@@ -1179,3 +1179,40 @@ Proof.
     rewrite <- (mu_row_is_model g s _ _ _ HW H2 H1). cbv zeta. unfold np_vmul, np_vadd. ring. }
   rewrite HF. destruct clip; reflexivity.
 Qed.
+
+(* ---------------------------------------------------------------- _update, encode_obs: the index dicts the blocks read *)
+Lemma positions_snoc k keys c :
+  positions k (keys ++ [c]) = positions k keys ++ (if (c =? k)%Z then [length keys] else []).
+Proof.
+  unfold positions. rewrite app_length. cbn [length]. rewrite Nat.add_1_r, seq_S, filter_app. cbn [Nat.add filter].
+  f_equal.
+  - apply filter_ext_in. intros i Hi. apply in_seq in Hi. unfold znth. rewrite app_nth1 by lia. reflexivity.
+  - unfold znth. rewrite app_nth2 by lia. rewrite Nat.sub_diag. cbn [nth]. reflexivity.
+Qed.
+
+Lemma dl_get_append dct k n k' :
+  dl_get (dl_append dct k n) k' = dl_get dct k' ++ (if (k =? k')%Z then [n] else []).
+Proof.
+  induction dct as [|[k0 l] r IH]; cbn [dl_append dl_get].
+  - destruct (k =? k')%Z; reflexivity.
+  - destruct (Z.eqb_spec k0 k) as [->|Hne]; cbn [dl_get].
+    + destruct (k =? k')%Z; [reflexivity | now rewrite app_nil_r].
+    + destruct (Z.eqb_spec k0 k') as [->|Hne']; [|apply IH].
+      destruct (Z.eqb_spec k k') as [->|_]; [congruence | now rewrite app_nil_r].
+Qed.
+
+(* _update keeps the representation: the new observation gets the next number, appended under its three keys *)
+Theorem src_update_is_model o d y cl dd1 dd2 :
+  obs_rep o d -> length (d_cl d) = nobs d -> length (d_dd1 d) = nobs d -> length (d_dd2 d) = nobs d ->
+  exists o', src_update o y cl dd1 dd2 = Ok o' /\ obs_rep o' (data_snoc d y cl dd1 dd2).
+Proof.
+  intros (Ey & Ec & E1 & E2 & Hc & H1 & H2) Lc L1 L2. eexists. split; [reflexivity|].
+  unfold obs_rep, data_snoc. cbn -[positions dl_get dl_append]. rewrite Ey, Ec, E1, E2. repeat split; intros k;
+    rewrite dl_get_append, positions_snoc, ?Hc, ?H1, ?H2, ?Lc, ?L1, ?L2; reflexivity.
+Qed.
+
+Theorem obs_rep_empty : obs_rep obs_empty data_empty.
+Proof. repeat split. Qed.
+
+Theorem src_encode_obs_is_model o d : obs_rep o d -> src_encode_obs o = Ok (d_y d, d_cl d, d_dd1 d, d_dd2 d).
+Proof. intros (Ey & Ec & E1 & E2 & _). unfold src_encode_obs. now rewrite Ey, Ec, E1, E2. Qed.
